@@ -389,7 +389,7 @@ mod tests {
 }
 
 /// The shortest round-trip digits of a positive finite double with the decimal point moved
-/// `k` places to the left or to the right (k = 1..=25 each way, padded with zeros) and the
+/// `k` places to the left or to the right (k = 1..=25 and eleven values from 300 to 400 each way, padded with zeros) and the
 /// exponent adjusted to compensate: all of them spell exactly the same real number, hence the
 /// same double - also where the *written* exponent lies outside the range of doubles although
 /// the value does not (0.1e309 is 1e308; 10000e-327 is 1e-323), and the other way round.
@@ -402,7 +402,9 @@ pub fn shifted_spellings(x: f64) -> Vec<String> {
     let exp: i32 = exp.parse().unwrap();
     let digits: String = mant.chars().filter(|c| c.is_ascii_digit()).collect();
     let mut out = Vec::new();
-    for k in 1..=25i32 {
+    // (1..=25 places, and far enough for the *written* integer part or the leading zeros of the
+    // fraction to outgrow every double on their own: 300 to 400 places)
+    for k in (1..=25i32).chain([300, 307, 308, 309, 310, 311, 323, 324, 325, 340, 400]) {
         // point moved k places to the left: 0.00d1d2... e(exp + k)
         out.push(format!("0.{}{}e{}", "0".repeat(k as usize - 1), digits, exp + k));
         // point moved k places to the right
@@ -439,5 +441,14 @@ pub fn sticky_spellings(x: f64) -> Vec<String> {
         return Vec::new();
     }
     let far = 1100usize.saturating_sub(frac.len()) + 30;
-    vec![format!("{int}.{frac}{}1", "0".repeat(far)), format!("{int}.{frac}{}1", "0".repeat(3)), format!("-{int}.{frac}{}1", "0".repeat(far))]
+    let digits = format!("{int}{frac}{}1", "0".repeat(far));
+    vec![
+        format!("{int}.{frac}{}1", "0".repeat(far)),
+        format!("{int}.{frac}{}1", "0".repeat(3)),
+        format!("-{int}.{frac}{}1", "0".repeat(far)),
+        // the same number with the point removed (more than a thousand *integer* digits, brought
+        // back by a negative exponent) and with 400 zeros put in front (brought back by a positive one)
+        format!("{}e-{}", digits.trim_start_matches('0'), frac.len() + far + 1),
+        format!("0.{}{digits}e{}", "0".repeat(400), 400 + int.len()),
+    ]
 }
